@@ -168,6 +168,10 @@ func ParseRtpHeader(b []byte) (h RtpHeader, err error) {
 
 	if h.Padding == 1 {
 		h.paddingLength = int(b[len(b)-1])
+		// padding count must leave at least one byte of payload, otherwise Body() slices out of range
+		if offset+h.paddingLength >= len(b) {
+			return h, base.ErrRtpRtcpShortBuffer
+		}
 	}
 	return
 }
